@@ -18,20 +18,35 @@ META = dict(
                'MapDataset/SliceDataset/ItemsDataset access paths'],
     stubs=[],
     assumptions=['honest note: there is no arithmetic here; the solver contributes exhaustiveness over the selector space (equivalent to bounded-exhaustive enumeration), decided path by path',
-                 'payloads are nested dict/list/int/str values; two examples per dataset'],
+                 'payloads are nested dict/list/int values with a 4800-byte and a 64-byte numpy array; two examples per dataset'],
     bounds=dict(quick='9 storage kinds x histories of 1 step (all access paths x mutations x targets) and 2 steps (first step structural, sampled 1 in 3)', thorough='all 2-step histories'),
-    outside=['histories longer than 2 steps', 'payload types other than dict/list/int/str'],
+    outside=['histories longer than 2 steps', 'payload types other than dict/list/int/numpy arrays'],
 )
 
 SOURCES = ['new_dict_pickle', 'new_list_pickle', 'new_dict_copy', 'new_list_copy', 'list_wu', 'cache_over_new', 'cache_over_raw', 'diskcache_over_new', 'eager_cache']
 ACCESS = ['idx', 'neg', 'key', 'slice', 'iter', 'items', 'copy']
-MUTATE = ['setkey', 'append', 'nested', 'delete', 'clear', 'orig']
+MUTATE = ['setkey', 'append', 'nested', 'delete', 'clear', 'orig', 'arr_big', 'arr_small', 'arr_slice']
 N = 2
 _COUNTER = [0]
 
 
 def _payload():
-    return {'k0': {'a': [1, {'b': 2}], 'c': 3}, 'k1': {'a': [4, {'b': 5}], 'c': 6}}
+    import numpy as np
+    # 'w': 4800 bytes (above the 4 KiB out-of-band thresholds of pickle protocol 5), 'u': 64 bytes
+    return {'k0': {'a': [1, {'b': 2}], 'c': 3, 'w': np.arange(600, dtype=np.float64), 'u': np.arange(8, dtype=np.float64)},
+            'k1': {'a': [4, {'b': 5}], 'c': 6, 'w': np.arange(600, dtype=np.float64) + 1000, 'u': np.arange(8, dtype=np.float64) + 10}}
+
+
+def _eq(a, b):
+    """structural equality that understands numpy arrays"""
+    import numpy as np
+    if isinstance(a, np.ndarray) or isinstance(b, np.ndarray):
+        return isinstance(a, np.ndarray) and isinstance(b, np.ndarray) and a.shape == b.shape and bool((a == b).all())
+    if isinstance(a, dict):
+        return isinstance(b, dict) and list(a.keys()) == list(b.keys()) and all(_eq(a[k], b[k]) for k in a)
+    if isinstance(a, (list, tuple)):
+        return type(a) is type(b) and len(a) == len(b) and all(_eq(x, y) for x, y in zip(a, b))
+    return a == b
 
 
 def _untraced():
@@ -96,11 +111,19 @@ def _mutate(ex, mut, payload, t, source):
         del ex['c']
     elif mut == 'clear':
         ex.clear()
+    elif mut == 'arr_big':
+        ex['w'] *= 0
+    elif mut == 'arr_small':
+        ex['u'] += 5
+    elif mut == 'arr_slice':
+        ex['w'][3:7] = -1
+        ex['u'][0] = -1
     elif mut == 'orig':
         # mutate the original container after construction: no effect for the serialising modes (pickle, wu, caches over them)
         if source in ('new_dict_pickle', 'new_list_pickle', 'list_wu', 'cache_over_new', 'diskcache_over_new', 'eager_cache'):
             payload[f'k{t}']['c'] = 99
             payload[f'k{t}']['a'].append(0)
+            payload[f'k{t}']['w'][:] = -7
         else:
             ex['a'][0] = -5
 
@@ -109,7 +132,7 @@ def _check_all(ds, keyed, pristine):
     want = list(pristine.values())
     for acc in ACCESS:
         for t in range(N):
-            if _access(ds, acc, t, keyed) != want[t]:
+            if not _eq(_access(ds, acc, t, keyed), want[t]):
                 return False
     return True
 
